@@ -7,6 +7,7 @@ import inspect
 import random
 
 from . import sigs, oracle
+from . import core
 from .sigs import PO, PK, VA, KO, VK, KIND_OF
 from .sigutil import show
 
@@ -97,6 +98,7 @@ def run_op(op, fs, rnd_state, S):
     raise KeyError(op)
 
 
+@core.guarded(lambda case_seed: dict(workload='ann', case_seed=case_seed))
 def check_case(ctx, case_seed):
     import sigtools
     from sigtools import signatures as S, modifiers
@@ -247,6 +249,7 @@ def spelling_mechanism(name, contributors, result):
     return False
 
 
+@core.guarded(lambda case_seed: dict(workload='annotate', case_seed=case_seed))
 def check_annotate(ctx, case_seed):
     """values given to modifiers.annotate are reported verbatim."""
     import sigtools
